@@ -145,6 +145,7 @@ def verify_function1(ex, c, prop, case):
     for dst, srcp in getattr(c, 'alias', {}).items():
         set_path(st, env, dst, get_path(st, env, srcp))
     st.env = env
+    st.ghost['now'] = VInt(z3.Int(fresh_name('now')))
     # assume requires + invariants
     senv0 = SpecEnv(st, dict(env))
     for nm, text in c.requires + c.inv:
